@@ -53,7 +53,7 @@ man = {
                  'kind_free_text': 'Hypothesis-driven property-based testing harness (generated programs, object graphs, histories, schedules, fault placements) against reference models / differential oracles; complete enumeration for finite tables; atheris (libFuzzer) coverage-guided amplification of the same strategies and oracles in the thorough tier (vf/fuzz.py)'}],
     'checks': checks,
     'not_applicable': na,
-    'notes': 'Entry point ./check <Cxx> [--tier quick|thorough] [--replay file]; honours VERIF_SEED, VERIF_TIER, VERIF_JOBS, VERIF_REPO. Exit 0 held / 1 VIOLATION / 2 harness error or inconclusive. Known findings: known_findings.json. Seeded-mutant results: DESIGN.md section 7 and seeded/.',
+    'notes': 'Entry point ./check <Cxx> [--tier quick|thorough] [--replay file]; honours VERIF_SEED, VERIF_TIER, VERIF_JOBS, VERIF_REPO. Exit 0 held / 1 VIOLATION / 2 harness error or inconclusive. Known findings: known_findings.json. Sensitivity results (hand mutants and independent changes): DESIGN.md section 10, tools/mutants.py and seeded/.',
 }
 with open(os.path.join(ROOT, 'MANIFEST.json'), 'w') as f:
     json.dump(man, f, indent=1)
